@@ -173,10 +173,31 @@ mod verif_c14m {
         kani::cover!(!m.contains(c));
         assert!(n >= n_expected_min);
     }
-    //@harness prop=C14 kind=lemma tier=quick class=P bound="complete: every char, mapping string is a constant (loops closed by unwinding assertions)" timeout=900 fns=src/mono_font/mapping.rs::StrGlyphMapping::index;src/mono_font/mapping.rs::StrGlyphMapping::contains;src/mono_font/mapping.rs::StrGlyphMapping::chars
+    /// Range-only mappings have a closed form: index(c) = offset of c in its range, '?' for every other
+    /// char. This implies index < glyph count, one index per mapped character and the replacement glyph
+    /// for unmapped ones. Complete: every char (the mapping string is a constant; loops are closed by
+    /// unwinding assertions).
+    //@harness prop=C14 kind=lemma tier=quick class=P bound="complete: every char" timeout=900 fns=src/mono_font/mapping.rs::StrGlyphMapping::index;src/mono_font/mapping.rs::StrGlyphMapping::chars
     #[kani::proof]
     #[kani::unwind(100)]
-    fn c14_mapping_ascii() { mapping_lemma(&ASCII, 96); }
+    fn c14_mapping_ascii() {
+        let c: char = kani::any();
+        let i = ASCII.index(c);
+        assert!(i == if (' '..='\u{7f}').contains(&c) { c as usize - 0x20 } else { '?' as usize - ' ' as usize });
+        assert!(i < 96);
+        kani::cover!(i == 95);
+        kani::cover!(c > '\u{ffff}');
+    }
+    //@harness prop=C14 kind=lemma tier=thorough class=P bound="complete: every char" timeout=3000
+    #[kani::proof]
+    #[kani::unwind(200)]
+    fn c14_mapping_iso_8859_1_closed_form() {
+        let c: char = kani::any();
+        let i = ISO_8859_1.index(c);
+        let e = if (' '..='\u{7f}').contains(&c) { c as usize - 0x20 } else if ('\u{a0}'..='\u{ff}').contains(&c) { c as usize - 0xa0 + 96 } else { 31 };
+        assert!(i == e && i < 192);
+        kani::cover!(i == 191);
+    }
     //@harness prop=C14 kind=lemma tier=thorough class=P bound="complete: every char" timeout=3000
     #[kani::proof]
     #[kani::unwind(200)]
